@@ -224,6 +224,8 @@ enum Gate {
 /// several connections of one server factory).
 pub struct App {
     pub log: RefCell<Vec<Ev>>,
+    /// sizes of the pieces the chunk-wise readers (`read()`) were handed, by publish
+    pub pieces: RefCell<Vec<(u32, usize)>>,
     gates: RefCell<HashMap<(u8, u32), Gate>>,
     /// gate state of invocations that have no explicit entry
     pub default_open: Cell<bool>,
@@ -287,6 +289,7 @@ impl App {
             max_active_pub: Cell::new(0),
             active_bytes: Cell::new(0),
             max_active_bytes: Cell::new(0),
+            pieces: RefCell::new(Vec::new()),
             max_active_last: Cell::new(0),
         })
     }
